@@ -17,6 +17,7 @@ var VRoot = fmt.Sprintf("/tmp/vrt-%d", os.Getpid())
 
 type vfsState struct {
 	files map[string]vfile
+	links map[string]string // directory symlinks: link path -> target path (vrtSymlink)
 	env   map[string]value
 	envK  []string
 	cwd   string
@@ -32,14 +33,33 @@ type vopen struct {
 
 func (ps *pathState) vfs() *vfsState {
 	if ps.fsx == nil {
-		ps.fsx = &vfsState{files: map[string]vfile{}, env: map[string]value{}, cwd: VRoot + "/w", open: map[*value]*vopen{}}
+		ps.fsx = &vfsState{files: map[string]vfile{}, links: map[string]string{}, env: map[string]value{}, cwd: VRoot + "/w", open: map[*value]*vopen{}}
 	}
 	return ps.fsx
 }
 
 // stat: 0 missing, 1 file, 2 dir
-func (fs *vfsState) stat(p string) (int, vfile) {
+// real replaces a leading symlinked directory by its target.
+func (fs *vfsState) real(p string) string {
 	p = path.Clean(p)
+	for hops := 0; hops < 8; hops++ {
+		done := true
+		for l, t := range fs.links {
+			if p == l || strings.HasPrefix(p, l+"/") {
+				p = path.Clean(t + p[len(l):])
+				done = false
+				break
+			}
+		}
+		if done {
+			break
+		}
+	}
+	return p
+}
+
+func (fs *vfsState) stat(p string) (int, vfile) {
+	p = fs.real(p)
 	if f, ok := fs.files[p]; ok {
 		if f.dir {
 			return 2, f
@@ -97,12 +117,18 @@ func init() {
 	V("vrtRoot", func(fr *frame, a []value) value { return VRoot })
 	V("vrtFile", func(fr *frame, a []value) value {
 		fs := fr.i.ps.vfs()
-		fs.files[path.Clean(fr.i.concStr(a[0]))] = vfile{content: a[1]}
+		fs.files[fs.real(fr.i.concStr(a[0]))] = vfile{content: a[1]}
+		return nil
+	})
+	V("vrtSymlink", func(fr *frame, a []value) value {
+		// vrtSymlink(target, link): link is a symbolic link to the directory target
+		fs := fr.i.ps.vfs()
+		fs.links[path.Clean(fr.i.concStr(a[1]))] = path.Clean(fr.i.concStr(a[0]))
 		return nil
 	})
 	V("vrtDir", func(fr *frame, a []value) value {
 		fs := fr.i.ps.vfs()
-		fs.files[path.Clean(fr.i.concStr(a[0]))] = vfile{dir: true}
+		fs.files[fs.real(fr.i.concStr(a[0]))] = vfile{dir: true}
 		return nil
 	})
 	V("vrtEnv", func(fr *frame, a []value) value {
@@ -280,6 +306,9 @@ func init() {
 		}
 		if k, _ := fs.stat(ap); k == 0 {
 			return tuple{"", fr.i.errnoErr(fr, "lstat", p, 2)}
+		}
+		if r := fs.real(ap); r != path.Clean(ap) {
+			return tuple{r, iface{}}
 		}
 		return tuple{path.Clean(p), iface{}}
 	})
